@@ -1,0 +1,74 @@
+//go:build verif
+
+package sonic
+
+// Contracts for sonic.Timer (property C04).
+
+//@ immutable [C04] Timer.ioc Timer.it constructors NewTimer
+
+//@ pred tArmed(t *Timer) = internal.armed(&t.it.slot, internal.PollerReadEvent)
+
+// A schedule is pending exactly when the timer's read interest is armed; a closed timer is
+// never armed.
+//@ pred tInv(t *Timer) =
+//@   t.ioc != nil && t.it != nil && internal.tiInv(t.it) &&
+//@   (t.state == stateScheduled) == tArmed(t) && t.state <= stateClosed
+
+// Rely on user callbacks: they leave the timer consistent (every public operation does).
+//@ func fnparam:(*Timer).*.cb
+//@   trusted
+//@   ensures internal.pInv(t.it.poller) && tInv(t)
+
+//@ func (*Timer).Scheduled
+//@   pure
+
+// The callback the internal timer runs on expiry: the timer is Ready again before the user
+// callback runs (so the callback may schedule it again), and the callback runs once.
+//@ func (*Timer).ScheduleOnce$1
+//@   prop C04
+//@   requires t != nil && tInv(t) && cb != nil
+//@   assert call cb: t.state == stateReady
+//@   consumes cb
+
+//@ func (*Timer).ScheduleOnce
+//@   prop C04
+//@   requires tInv(t) && cb != nil
+//@   // a timer holds at most one schedule: scheduling while scheduled (or closed) fails and disturbs nothing
+//@   ensures [busy] old(t.state) != stateReady ==> err != nil && invoked(cb) == 0 && t.state == old(t.state) &&
+//@           t.cancelled == old(t.cancelled) && tArmed(t) == old(tArmed(t)) &&
+//@           t.it.poller.pending == old(t.it.poller.pending)
+//@   ensures [immediate] old(t.state) == stateReady && delay <= 0 ==> invoked(cb) == 1
+//@   ensures [armed] old(t.state) == stateReady && delay > 0 && err == nil ==> invoked(cb) == 0 && t.state == stateScheduled && tArmed(t) &&
+//@           t.it.poller.pending == old(t.it.poller.pending) + 1
+//@   ensures [failed] old(t.state) == stateReady && delay > 0 && err != nil ==> invoked(cb) == 0 && t.state == stateReady && !tArmed(t)
+//@   ensures [inv] invoked(cb) == 0 ==> tInv(t)
+
+//@ func (*Timer).Cancel
+//@   prop C04
+//@   requires tInv(t)
+//@   ensures [cancelled] result == nil ==> !tArmed(t) && (old(t.state) != stateClosed ==> t.state == stateReady && t.cancelled)
+//@   // a closed timer cannot be revived
+//@   ensures [closed-stays] old(t.state) == stateClosed ==> t.state == stateClosed
+//@   ensures [failed] result != nil ==> t.state == old(t.state)
+//@   ensures [inv] tInv(t)
+
+//@ func (*Timer).Close
+//@   prop C04, C13
+//@   requires tInv(t)
+//@   ensures [closed] err == nil ==> t.state == stateClosed && !tArmed(t)
+//@   ensures [second] old(t.state) == stateClosed ==> err == nil && (forall k :: FDOPEN[k] == old(FDOPEN[k]))
+//@   ensures [inv] tInv(t)
+
+// The repeating wrapper: after the user callback returns, re-arm for a full interval unless
+// the timer was cancelled meanwhile.
+//@ func (*Timer).ScheduleRepeating$1
+//@   prop C04
+//@   requires t != nil && cb != nil && ccb != nil && repeat > 0
+//@   assert call ScheduleOnce: !t.cancelled && arg1 == repeat
+//@   consumes cb
+
+//@ func (*Timer).ScheduleRepeating
+//@   prop C04
+//@   requires tInv(t) && cb != nil
+//@   ensures [rejected] repeat <= 0 ==> result != nil && t.state == old(t.state) && tArmed(t) == old(tArmed(t)) && invoked(cb) == 0
+//@   assert call ScheduleOnce: arg1 == repeat && repeat > 0
